@@ -42,8 +42,8 @@ type raceReal struct {
 	Exit        int             `json:"exit"`
 	Races       []string        `json:"races"` // keys
 	RaceText    string          `json:"race_text,omitempty"`
-	Fatal       string          `json:"fatal,omitempty"`
-	Hang        bool            `json:"hang,omitempty"`
+	Fatal       string          `json:"proc_fatal,omitempty"`
+	Hang        bool            `json:"proc_hang,omitempty"`
 	Out         json.RawMessage `json:"out,omitempty"`
 	// for the evidence histogram (core.Class): "ok" = every input loads alone, "err" = some input is rejected alone
 	AllOk   *int `json:"ok,omitempty"`
